@@ -600,6 +600,23 @@ class World:
         self.snap_tips()
         return p.returncode == 0
 
+    def a_push_tag(self, tag, ref, user=LEAD):
+        """somebody with push rights releases: a tag on the tip of `ref`"""
+        self._sync_actor()
+        self.git('tag', '-f', tag, 'origin/' + ref)
+        p = self.git('push', '-q', 'origin', 'refs/tags/' + tag, check=False)
+        return p.returncode == 0
+
+    def a_create_branch_by_hand(self, branch, base, user=LEAD):
+        """somebody with push rights opens a new destination branch with
+        plain git (not through the create-branch job)"""
+        self._sync_actor()
+        p = self.git('push', '-q', 'origin',
+                     'refs/remotes/origin/%s:refs/heads/%s' % (base, branch),
+                     check=False)
+        self.snap_tips()
+        return p.returncode == 0
+
     def a_arm_push_at_pr_read(self, branch, nth=1):
         """the author pushes one more commit on `branch` DURING the next job,
         right before the robot's nth read of the pull-request list"""
